@@ -38,7 +38,16 @@ def main(argv=None):
         mod = importlib.import_module("hgxmc.checks." + a.prop.lower())
         if a.replay:
             doc = json.load(open(a.replay))
-            ok = mod.replay(doc["witness"], doc.get("key"))
+            try:
+                ok = mod.replay(doc["witness"], doc.get("key"))
+            except Exception as e:
+                from .corpus import BuildError
+                from .e4 import raised_in_library
+
+                if not isinstance(e, BuildError) and not raised_in_library(e):
+                    raise
+                print("   %s: %s" % (type(e).__name__, str(e)[:600]))
+                ok = True  # the library raised on the witness input: a violation is reproduced (possibly before the recorded one is reached)
             if ok:
                 print("VIOLATION property=%s replay=%s" % (a.prop, a.replay))
                 print("   reproduced: key=%s" % doc.get("key"))
